@@ -33,7 +33,8 @@ def build(h, symbols=('BTC-USDT',), timeframes=('1m', '5m'), route_tfs=('5m',)):
         base_fn = a.fn
 
         def fn(k, base_fn=base_fn, s=s):
-            S.reads.append((s, k))
+            from pyvc import lib
+            S.reads.append((s, k, list(lib.GUARDS)))
             return base_fn(k)
         a.fn = fn
         S.inputs[s] = a
@@ -93,6 +94,34 @@ def build(h, symbols=('BTC-USDT',), timeframes=('1m', '5m'), route_tfs=('5m',)):
         return out
     ov['jesse.services.candle.generate_candle_from_one_minutes'] = gen
     return S
+
+
+def force_content(h, w, what='q'):
+    """evaluate one arbitrary row of a window handed to a consumer, so that every input row its *content* depends on is
+    recorded as a read (data flow), not only the rows the simulator indexed itself"""
+    if isinstance(w, Arr):
+        q = h.int(what, 0)
+        h.assume(ops.compare('<', q, w.n))
+        import z3
+        if h.ctx.feasible(z3.BoolVal(True)):
+            w.fn(q)
+    return w
+
+
+def reads_goal(reads, bound_ok):
+    """conjunction over the recorded reads: (guards of the lazy selection it was evaluated under) => bound_ok(row index)"""
+    import z3
+    from pyvc.values import z3bool
+    goal = True
+    for s, k, guards in reads:
+        ok = bound_ok(k)
+        if guards:
+            g = z3.And(*guards) if len(guards) > 1 else guards[0]
+            okb = z3bool(ok) if not isinstance(ok, bool) else z3.BoolVal(ok)
+            from pyvc.values import mk_bool
+            ok = mk_bool(z3.Implies(g, okb))
+        goal = ops.land(goal, ok)
+    return goal
 
 
 def window_of(w):
